@@ -30,6 +30,8 @@ type ConnScript struct {
 	// ConnectionTokens (HTTP/1.1 only): header names the client lists in a Connection header, i.e. declares
 	// hop-by-hop; a client may name the fingerprint headers there
 	ConnectionTokens []string `json:"connection_tokens,omitempty"`
+	// Burst (HTTP/2 only): all requests leave in the connection's first flight and are handled at the same time
+	Burst bool `json:"burst,omitempty"`
 }
 
 // ccsAppender adds a change_cipher_spec record to the first write that carries a handshake record.
@@ -162,7 +164,23 @@ func RunConn(p *Proxy, s ConnScript, tag string) *ConnResult {
 		peer := NewH2Peer(c.Conn)
 		peer.Start()
 		peer.Fr.WriteSettings()
-		for i := 0; i < s.NReq; i++ {
+		if s.Burst {
+			for i := 0; i < s.NReq; i++ {
+				fields := [][2]string{{":method", "GET"}, {":scheme", "https"}, {":authority", "example.com"}, {":path", fmt.Sprintf("/%s/%d", tag, i)}}
+				for _, h := range s.ExtraHeaders {
+					fields = append(fields, [2]string{strings.ToLower(h[0]), h[1]})
+				}
+				if err := peer.WriteRequestHeaders(uint32(1+2*i), fields, true, nil, nil); err != nil {
+					res.Err = "h2 write: " + err.Error()
+					break
+				}
+			}
+			for i := 0; i < s.NReq && res.Err == ""; i++ {
+				peer.AwaitResponse(uint32(1+2*i), nil)
+				res.Statuses = append(res.Statuses, peer.Response(uint32(1+2*i)).Status)
+			}
+		}
+		for i := 0; i < s.NReq && !s.Burst; i++ {
 			sid := uint32(1 + 2*i)
 			fields := [][2]string{{":method", "GET"}, {":scheme", "https"}, {":authority", "example.com"}, {":path", fmt.Sprintf("/%s/%d", tag, i)}}
 			for _, h := range s.ExtraHeaders {
